@@ -94,6 +94,20 @@ CHECKS = {
         technique="Coq proof (counter invariant over schedules) + trace acceptance and monitor "
                   "evaluated by vm_compute",
         design_ref="DESIGN.md section 6/C10"),
+    'C11': dict(
+        text="Theorems (Props/C11.v) for every event topology, handler/init script and fuel: every "
+             "event() call - handled, vetoed, 'no event', unknown type, wrong parameters, failed, "
+             "refused as recursive - leaves all guard flags as it found them; no handler of a block "
+             "ever starts while another handler of the same block runs (also inside the "
+             "'initialisation by an event' window); a call reaching a busy block is refused and any "
+             "error passing through a handler aborts; conditional 'no event', unknown type and "
+             "parameter errors never abort; link theorem agree->monitor. Tie: scripted probe SBlocks "
+             "in random graphs with cycles/self-loops incl. init-time sends; per top-level event the "
+             "exception class, Circuit.error, ordered handler log, per-block nesting depth and "
+             "acceptance of follow-up events are compared with the model.",
+        technique="Coq proof (induction on fuel with nested script induction) + differential "
+                  "correspondence evaluated by vm_compute",
+        design_ref="DESIGN.md section 6/C11"),
 }
 
 NOT_YET = "check not built yet in this round (planned: Coq model + theorems + correspondence, see DESIGN.md section 6)"
